@@ -178,7 +178,7 @@ def facts(src, strip_comments, fn_body, repo=None):
                 # EVALSHA: excluded from the verbatim append, and handle_evalsha_command appends the EVAL it stands for
                 hev = fn_body(server, "handle_evalsha_command")
                 m_log = re.search(r"self\s*\.\s*log_effect\s*\(\s*db\s*,\s*&\s*eval_parts\s*\)", hev or "")
-                m_run = re.search(r"handle_eval_with_db\s*\(", hev or "")
+                m_run = re.search(r"handle_eval_with_(?:db|publish)\s*\(", hev or "")      # (_with_publish since 2c7061f)
                 # appended BEFORE the script runs (whatever its outcome: scripts are not rolled back)
                 out["evalshaAsEval"] = by_effect and "EVALSHA" in names and bool(m_log) and bool(m_run) and m_log.start() < m_run.start()
     # ---- every other caller of append_command (AofEngine): which functions log?
